@@ -11,7 +11,10 @@ trap 'git -C /repo checkout -- . ; rm -f /repo/tests/seeded_demo.rs' EXIT
 git -C /repo apply "$dir/patch.diff" || { echo "patch does not apply"; exit 2; }
 : > "$dir/eval.log"
 for p in "$@"; do
+  # the evidence file of a run against a patched tree must not replace the committed one
+  cp -f "evidence/$p.json" "target/evidence-$p.saved" 2>/dev/null
   out=$(./check "$p" quick 2>&1); rc=$?
+  [ -f "target/evidence-$p.saved" ] && mv -f "target/evidence-$p.saved" "evidence/$p.json"
   sigs=$(echo "$out" | grep -E "^  signature:" | sed 's/^  signature: //' | tr '\n' ';')
   echo "$p rc=$rc $sigs" | tee -a "$dir/eval.log"
 done
